@@ -660,8 +660,19 @@ class _Env:
                 vals = list(v)
             except TypeError:
                 raise _Abort('unpacking non-iterable')
-            if any(isinstance(e, ast.Starred) for e in t.elts):
-                raise _Abort('starred unpacking')
+            stars = [i for i, e in enumerate(t.elts) if isinstance(e, ast.Starred)]
+            if stars:
+                # a, *rest, z = seq
+                if len(stars) > 1 or len(vals) < len(t.elts) - 1:
+                    raise _Abort('starred unpacking of a sequence that is too short')
+                i = stars[0]
+                after = len(t.elts) - i - 1
+                for e, x in zip(t.elts[:i], vals[:i]):
+                    self.assign(e, x)
+                self.assign(t.elts[i].value, list(vals[i:len(vals) - after]))
+                for e, x in zip(t.elts[i + 1:], vals[len(vals) - after:]):
+                    self.assign(e, x)
+                return
             if len(vals) != len(t.elts):
                 raise _Abort('unpacking arity')
             for e, x in zip(t.elts, vals):
@@ -1008,6 +1019,8 @@ class _Env:
         if isinstance(o, Sym):
             if o.kind == 'ext':
                 return Sym('ext', f'{o.name}.{attr}')
+            if o.kind == 'builtin' and o.name == 'dict' and attr == 'fromkeys':
+                return _PyCallable(lambda it, value=None: dict.fromkeys(list(it), value))
             return Unknown(f'attribute {attr} of {o!r}')
         if isinstance(o, FuncVal):
             if attr == '__name__':
